@@ -131,6 +131,20 @@ def run(chk: common.Check, tier: str):
         cases.append(term)
         descs.append(desc)
         probs = spec_check(raw, ops, outs, final, path_text, text, tm.run_real.pulled_after)
+        if tm.run_real.pulled_at_start:
+            probs.append(f"constructing the wrapper pulled {tm.run_real.pulled_at_start} raw tokens before any operation")
+        # the same sequence with tracing on: tracing only prints, so outputs, cursor, buffer and pull counts are the same
+        pa = tm.run_real.pulled_after
+        try:
+            vouts, vfinal = tm.run_real(raw, ops, path_text, verbose=True)
+        except Exception as e:      # noqa
+            vouts, vfinal = [("crash", type(e).__name__)], None
+        if tm.run_real.pulled_at_start:
+            probs.append(f"verbose=True: constructing the wrapper pulled {tm.run_real.pulled_at_start} raw tokens before any operation")
+        if vouts != outs or (vfinal is not None and vfinal[:3] != final[:3]) or tm.run_real.pulled_after != pa:
+            probs.append(f"verbose=True changes what the wrapper does: outputs {vouts} vs {outs}, (cursor, buffered, pulled) "
+                         f"{vfinal[:3] if vfinal else None} vs {final[:3]}, pulled after each op {tm.run_real.pulled_after} vs {pa}")
+        tm.run_real.pulled_after = pa
         for p in probs:
             if "raised KeyError" in p and any(text == kf["witness"]["source"] for kf in kfs):
                 continue        # exactly the recorded witness; reported as KNOWN-FINDING below
